@@ -15,24 +15,28 @@ ENV.pop("RUSTUP_TOOLCHAIN", None)
 # ---------------------------------------------------------------------------------------------
 # build configurations: package, cargo feature arguments, whether the crypto model is swapped in
 # ---------------------------------------------------------------------------------------------
-def _dev(features, swap=True):
-    return dict(package="lorawan-device",
-                args=["--no-default-features", "--features", features], swap=swap)
+def _dev(features, region, swap=True):
+    # `--cfg lrv_region="..."` tells the harnesses which region is under test independently of the
+    # feature set: native playback has to be built with region-eu868 and region-us915 enabled as
+    # well (the crate's own #[cfg(test)] modules need both), which would otherwise change REGIONS[0]
+    return dict(package="lorawan-device", features=features, region=region,
+                args=["--no-default-features", "--features", features], swap=swap,
+                rustflags='--cfg lrv_region="%s"' % region)
 
 BUILDS = {
     "mod": dict(package="lora-modulation", args=[], swap=False),
     "enc": dict(package="lorawan", args=[], swap=True),
     "enc-real": dict(package="lorawan", args=[], swap=False,
                      rustflags='--cfg aes_backend="soft"'),
-    "dev-eu868": _dev("region-eu868,class-c"),
-    "dev-eu433": _dev("region-eu433,class-c"),
-    "dev-in865": _dev("region-in865,class-c"),
-    "dev-as923": _dev("region-as923-1,region-as923-2,region-as923-3,region-as923-4,class-c"),
-    "dev-us915": _dev("region-us915,class-c"),
-    "dev-au915": _dev("region-au915,class-c"),
-    "dev-eu868-noc": _dev("region-eu868"),
-    "dev-us915-noc": _dev("region-us915"),
-    "dev-serde": _dev("region-eu868,class-c,serde"),
+    "dev-eu868": _dev("region-eu868,class-c", "eu868"),
+    "dev-eu433": _dev("region-eu433,class-c", "eu433"),
+    "dev-in865": _dev("region-in865,class-c", "in865"),
+    "dev-as923": _dev("region-as923-1,region-as923-2,region-as923-3,region-as923-4,class-c", "as923"),
+    "dev-us915": _dev("region-us915,class-c", "us915"),
+    "dev-au915": _dev("region-au915,class-c", "au915"),
+    "dev-eu868-noc": _dev("region-eu868", "eu868"),
+    "dev-us915-noc": _dev("region-us915", "us915"),
+    "dev-serde": _dev("region-eu868,class-c,serde", "eu868"),
     "phy": dict(package="lora-phy", args=["--features", "lorawan-radio"], swap=True,
                 # cargo-kani drops `dep/feature` arguments: give the optional lorawan-device dependency
                 # its region features in the scratch copy's manifest instead (build config only)
